@@ -23,7 +23,7 @@ func init() {
 	}}
 	properties["C17"] = propDef{run: func(c *Ctx) *PropertyRun {
 		return &PropertyRun{Level: "other", Trusted: trustedBase, Assume: commonAssumptions,
-			Rules: []*RuleResult{c.rule("R3", ruleR3), c.rule("R4", ruleR4), c.rule("R6", ruleR6)},
+			Rules: []*RuleResult{c.rule("R3", ruleR3), c.rule("R4", ruleR4), c.rule("R5", ruleR5), c.rule("R6", ruleR6), c.rule("R7", ruleR7)},
 			Explain: "partial"}
 	}}
 	properties["C11"] = propDef{run: func(c *Ctx) *PropertyRun {
@@ -34,6 +34,11 @@ func init() {
 	properties["C12"] = propDef{run: func(c *Ctx) *PropertyRun {
 		return &PropertyRun{Level: "other", Trusted: trustedBase, Assume: commonAssumptions,
 			Rules: []*RuleResult{c.rule("R8", ruleR8), c.rule("R6", ruleR6)},
+			Explain: "partial"}
+	}}
+	properties["C03"] = propDef{run: func(c *Ctx) *PropertyRun {
+		return &PropertyRun{Level: "other", Trusted: trustedBase, Assume: commonAssumptions,
+			Rules: []*RuleResult{c.rule("R5", ruleR5), c.rule("R7", ruleR7)},
 			Explain: "partial"}
 	}}
 }
